@@ -182,7 +182,10 @@ class LocalShare:
 
     def __addPackage(self, buildId, size):
         def update(f):
-            meta = json.load(f)
+            # The file is still empty if it was just created, maybe by somebody
+            # else who has not got the lock yet.
+            data = f.read()
+            meta = json.loads(data) if data else {}
             meta.setdefault("pkgs", {})[asHexStr(buildId)] = size
             f.seek(0)
             f.truncate()
@@ -201,9 +204,8 @@ class LocalShare:
             except FileNotFoundError:
                 # Unusual case: does not exist yet -> create atomically.
                 try:
-                    with OpenLocked(fn, "x", True) as f:
-                        json.dump({"pkgs" : {asHexStr(buildId) : size}}, f)
-                        return size
+                    with OpenLocked(fn, "x+", True) as f:
+                        return update(f)
                 except FileExistsError:
                     # Almost impossible case: lost creation race -> update
                     with OpenLocked(fn, "r+", True) as f:
@@ -334,7 +336,8 @@ class LocalShare:
             # and usage of packages.
             candidates = []
             with OpenLocked(os.path.join(self.__path, "repo.json"), "r+", True) as rf:
-                repoMeta = json.load(rf)
+                data = rf.read()
+                repoMeta = json.loads(data) if data else {}
 
                 # Scan all packages
                 for pkg, size in repoMeta.get("pkgs", {}).items():
